@@ -61,6 +61,10 @@ pub struct StepObs {
     pub dispatches: u64,
     pub allocs: u64,
     pub panicked: bool,
+    /// value-stack height when the run returned
+    pub end_height: usize,
+    /// call-stack depth when the run returned minus the depth when it started
+    pub leaked_frames: i64,
 }
 
 const BIG_BUDGET: u64 = 200_000;
@@ -134,12 +138,44 @@ fn gen_recursive(rng: &mut Rng) -> Module {
     m
 }
 
+/// a program without locals or arguments that ends 1-3 calls deep: a failing native, a missing
+/// variable or an Abort card. It hands back an empty value stack.
+fn gen_early_exit(rng: &mut Rng) -> Module {
+    let depth = 1 + rng.usize(3);
+    let mut m = Module::default();
+    m.functions.push((
+        "main".into(),
+        Function::default().with_cards(vec![
+            Card::set_global_var("before", Card::scalar_int(1)),
+            Card::call_function("d1", vec![]),
+            Card::set_global_var("after", Card::scalar_int(1)),
+        ]),
+    ));
+    for d in 1..=depth {
+        let mut f = Function::default();
+        f.cards.push(Card::set_global_var(format!("reached{d}"), Card::scalar_int(d as i64)));
+        if d < depth {
+            f.cards.push(Card::call_function(format!("d{}", d + 1), vec![]));
+        } else {
+            f.cards.push(match rng.below(3) {
+                0 => Card::call_native("fail", vec![Card::scalar_int(1)]),
+                1 => Card::set_global_var("x", Card::read_var("never_assigned_global")),
+                _ => c(CardBody::Abort),
+            });
+        }
+        m.functions.push((format!("d{d}"), f));
+    }
+    m
+}
+
 fn gen_history(rng: &mut Rng, tier: Tier, endurance: bool) -> History {
     let mut programs = vec![];
     let np = if endurance { 1 } else { 1 + rng.usize(3) };
     for _ in 0..np {
-        let m = match rng.below(if endurance { 3 } else { 7 }) {
+        let m = match rng.below(if endurance { 4 } else { 8 }) {
             0 | 1 => gen_balanced(rng),
+            3 if endurance => gen_early_exit(rng),
+            7 => gen_early_exit(rng),
             2 => {
                 let mut s = gen_churn_shape(rng);
                 s.iterations = s.iterations.min(60);
@@ -223,7 +259,10 @@ impl Machine {
             Fault::HostFail(k) => HostPlan { at: [(*k, HostDecision::Fail)].into_iter().collect() },
             _ => HostPlan::default(),
         };
+        let depth0 = vm.runtime_data.verif_call_depth();
         let r = catch(|| vm.run(p));
+        let end_height = vm.runtime_data.verif_stack_height();
+        let leaked_frames = vm.runtime_data.verif_call_depth() as i64 - depth0 as i64;
         let out = collect(vm, &self.ctl, p, r, true);
         let c1 = &out.counters;
         let obs = StepObs {
@@ -236,6 +275,8 @@ impl Machine {
             dispatches: c1.dispatches - c0.dispatches,
             allocs: c1.allocs - c0.allocs,
             panicked: out.panic.is_some(),
+            end_height,
+            leaked_frames,
         };
         (obs, out)
     }
@@ -376,6 +417,14 @@ fn run_history(h: &History, ctx: Option<&mut CaseCtx>) -> Vec<(Json, String, usi
                 found.push((f.sig.clone(), f.what.clone(), i));
             }
         }
+        // a run hands the call stack back as it found it, however it ended: frames left behind
+        // are out of every program's reach and use up the call stack of the following runs
+        if obs.leaked_frames != 0 && !obs.panicked {
+            let sig = json!({"inv": "run-leaves-call-frames", "ending": ending_class(&obs.result)});
+            if !found.iter().any(|(s, _, _)| s == &sig) {
+                found.push((sig, format!("step {i}: the run ended with {} and left {} frame(s) on the call stack", obs.result, obs.leaked_frames), i));
+            }
+        }
         reused_obs.push((i, obs.clone(), cleared, prev_ending.clone()));
         // repeating the same run from the same (cleared) state gives the same outcome every time
         if cleared {
@@ -435,7 +484,10 @@ fn run_history(h: &History, ctx: Option<&mut CaseCtx>) -> Vec<(Json, String, usi
             // no clear in between: only for a program that leaves the stacks balanced, succeeds, and
             // has been the only program run since the last clear (data left behind by a different
             // program legitimately occupies memory and globals)
-            let balanced = fresh.result == "Ok" && !h.programs[st.program].functions[0].1.cards.iter().any(|c| !matches!(c.body, CardBody::SetGlobalVar(_)));
+            // balanced: the run hands back an empty value stack (observed), whether it succeeds or
+            // fails; programs that succeed additionally have a main made of global assignments only
+            let balanced = fresh.end_height == 0
+                && (fresh.result != "Ok" || !h.programs[st.program].functions[0].1.cards.iter().any(|c| !matches!(c.body, CardBody::SetGlobalVar(_))));
             let mut same_since_clear = true;
             let mut j = *i;
             while j > 0 {
@@ -451,7 +503,7 @@ fn run_history(h: &History, ctx: Option<&mut CaseCtx>) -> Vec<(Json, String, usi
             // the values left in the globals by the previous run are still reachable while the next
             // run builds the new ones, so under a tight limit OutOfMemory is a legitimate outcome
             let legit_oom = innermost(&obs.result) == "OutOfMemory" && h.mem_limit < 400 * 1024;
-            let prev_ok = after == "Ok" && same_since_clear && !legit_oom && st.fault == Fault::None;
+            let prev_ok = *after == ending_class(&fresh.result) && same_since_clear && !legit_oom && st.fault == Fault::None;
             if balanced && prev_ok {
                 if let Some(ctx) = ctxo.as_deref_mut() {
                     ctx.count("probe:balanced_repeat_without_clear", 1);
